@@ -1,5 +1,5 @@
 ---- MODULE Gen_Reward ----
 EXTENDS Reward, Json
 \* a behaviour (scenario of one term) is printed when the rewards have been calculated
-Emit == (phase = "done") => PrintT(<<"B", ToJson(hist)>>)
+Emit == (phase = "done" /\ term = Terms) => PrintT(<<"B", ToJson(hist)>>)
 ====
